@@ -17,6 +17,8 @@ from harness import common, gendoc, runmodel, parsemodel
 from harness.common import Sym
 
 MET, UA, UB = 'module:os', '--xdverif-unmet-a', 'module:xdverif_no_such_module_b'
+# a missing module below a package that exists, below a module that is compiled into the interpreter, below a plain module
+UC, UD, UE = 'module:sys.xdverif_no_such_part', 'module:os.xdverif_no_such_part', 'module:time.nope.deeper'
 DIRS = [('SKIP', True, None), ('SKIP', False, None),
         ('REQUIRES', True, MET), ('REQUIRES', False, MET),
         ('REQUIRES', True, UA), ('REQUIRES', False, UA),
@@ -27,7 +29,8 @@ BYSTANDERS = [('REPORT_NDIFF', False, None), ('REPORT_UDIFF', True, None), ('REP
               ('ELLIPSIS', False, None), ('NORMALIZE_WHITESPACE', True, None), ('IGNORE_WHITESPACE', True, None), ('REPORT_ONLY_FIRST_FAILURE', False, None)]
 # one directive listing several conditions (met ones before, between and after unmet ones)
 MULTI_DIRS = [('REQUIRES', sign, ', '.join(args)) for sign in (True, False)
-              for args in ((MET, UA), (UA, MET), (MET, UA, UB), (UA, MET, UB), (UB, UA), (MET, MET, UB), ('module:sys', UA), ('module:time',), ('module:itertools', 'module:sys'))]
+              for args in ((MET, UA), (UA, MET), (MET, UA, UB), (UA, MET, UB), (UB, UA), (MET, MET, UB), ('module:sys', UA), ('module:time',), ('module:itertools', 'module:sys'),
+                           (UC,), (MET, UD), (UE,), ('module:sys', UC))]
 PRELUDE = gendoc.PRELUDE + '''
 def tr(k):
     def deco(f):
@@ -331,7 +334,29 @@ def unit_level(ctx):
     ctx.count('unit:sequences_that_skip', nt)
 
 
+def check_known_classes(ctx):
+    """recorded defects of the unchanged tree, re-evaluated on the real code every run"""
+    import contextlib, io
+    from xdoctest import doctest_example
+    for e in common.load_known_findings('C04'):
+        doc = e['witness']['doctest']
+        ctx.evaluations += 1
+        try:
+            with contextlib.redirect_stdout(io.StringIO()):
+                s = doctest_example.DocTest(docsrc=doc, lineno=1).run(on_error='return', verbose=0)
+            still = not s['passed']
+            outcome = 'passed' if s['passed'] else ('skipped' if s['skipped'] else 'failed')
+        except BaseException as ex:      # noqa  (an all-skipped doctest ends in pytest's Skipped)
+            still = True
+            outcome = type(ex).__name__
+        if still:
+            ctx.known_finding('%s %s; e.g. doctest=%r (%s)' % (e['id'], e['what'], doc, outcome))
+        else:
+            ctx.notes.append('recorded finding %s no longer reproduces: %s' % (e['id'], outcome))
+
+
 def run(ctx):
+    check_known_classes(ctx)
     unit_level(ctx)
     cases = []
     for idx, events in enumerate(gen_events(ctx)):
